@@ -18,6 +18,8 @@ structure RowFn (α : Type) where
   g : Nat × Nat → Row α → Row α
   wx : Nat → Nat → Nat
   wu : Nat → Nat → Nat
+  /-- rows on which `g` inverts `f` (e.g. angles inside `(-π, π]` for `AnglePreprocessor`) -/
+  dom : Row α → Prop := fun _ => True
 
 mutual
 /-- a lifting-function tree: `rw k` is an episode-independent (row-wise) stage of kind `k`,
@@ -111,6 +113,18 @@ def Stages.inv : Stages κ → Nat × Nat → Ep α → Ep α
 end
 
 
+mutual
+/-- every row that reaches a row-wise stage lies in that stage's invertibility domain -/
+def Stage.dom : Stage κ → Ep α → Prop
+  | .rw k, X => ∀ r ∈ X, (env k).dom r
+  | .delay _ _, _ => True
+  | .split a b, X => Stages.dom a (onlyX X) ∧ Stages.dom b (onlyU X)
+  | .pipe ss, X => Stages.dom ss X
+def Stages.dom : Stages κ → Ep α → Prop
+  | .nil, _ => True
+  | .cons s rest, X => Stage.dom s X ∧ Stages.dom rest (Stage.tr env s X)
+end
+
 /-! ### list lemmas -/
 section lists
 variable {β γ δ : Type}
@@ -200,7 +214,7 @@ theorem undelayEp_lastN_delayEp (wx wu dx du k : Nat) (X : Ep α) (hX : Typed wx
 /-! ### tree-level facts -/
 
 structure EnvLaws (env : κ → RowFn α) : Prop where
-  inv : ∀ k wx wu r, r.x.length = wx → r.u.length = wu → (env k).g (wx, wu) ((env k).f r) = r
+  inv : ∀ k wx wu r, r.x.length = wx → r.u.length = wu → (env k).dom r → (env k).g (wx, wu) ((env k).f r) = r
   wx : ∀ k r, ((env k).f r).x.length = (env k).wx r.x.length r.u.length
   wu : ∀ k r, ((env k).f r).u.length = (env k).wu r.x.length r.u.length
 
@@ -433,7 +447,7 @@ theorem lastN_zipXU (k : Nat) (A B : Ep α) (hk : k ≤ min A.length B.length) :
 
 mutual
 theorem Stage.roundtrip_suffix (hL : EnvLaws env) (s : Stage κ) (wx wu : Nat) (X : Ep α)
-    (hwf : Stage.wf env s (wx, wu))
+    (hwf : Stage.wf env s (wx, wu)) (hdom : Stage.dom env s X)
     (hX : Typed wx wu X) (k : Nat) (hk1 : 1 ≤ k) (hk : k + Stage.loss s ≤ X.length) :
     Stage.inv env s (wx, wu) (lastN k (Stage.tr env s X)) = lastN (k + Stage.gain s) X := by
   cases s with
@@ -444,13 +458,14 @@ theorem Stage.roundtrip_suffix (hL : EnvLaws env) (s : Stage κ) (wx wu : Nat) (
     intro r hr
     have hr' := hX r (List.mem_of_mem_drop hr)
     simp only [Function.comp]
-    exact hL.inv kk wx wu r hr'.1 hr'.2
+    exact hL.inv kk wx wu r hr'.1 hr'.2 (hdom r (List.mem_of_mem_drop hr))
   | delay dx du =>
     simp only [Stage.inv, Stage.tr, Stage.gain]
     exact undelayEp_lastN_delayEp wx wu dx du k X hX hk1 (by simpa [Stage.loss] using hk)
   | split a b =>
     simp only [Stage.loss] at hk
     simp only [Stage.wf] at hwf
+    simp only [Stage.dom] at hdom
     obtain ⟨hwa, hwb, hu0, hx0⟩ := hwf
     have hga := Stages.gain_le_loss a
     have hgb := Stages.gain_le_loss b
@@ -466,8 +481,8 @@ theorem Stage.roundtrip_suffix (hL : EnvLaws env) (s : Stage κ) (wx wu : Nat) (
       rw [lastN_length, lastN_length, hlA, hlB]; omega
     rw [onlyX_zip _ _ hl, onlyU_zip _ _ hl]
     rw [onlyX_of_typed0 _ _ (typed_lastN _ _ k _ hA), onlyU_of_typed0 _ _ (typed_lastN _ _ k _ hB)]
-    rw [Stages.roundtrip_suffix hL a wx 0 (onlyX X) hwa (typed_onlyX wx wu X hX) k hk1 (by rw [onlyX_length]; omega),
-        Stages.roundtrip_suffix hL b 0 wu (onlyU X) hwb (typed_onlyU wx wu X hX) k hk1 (by rw [onlyU_length]; omega)]
+    rw [Stages.roundtrip_suffix hL a wx 0 (onlyX X) hwa hdom.1 (typed_onlyX wx wu X hX) k hk1 (by rw [onlyX_length]; omega),
+        Stages.roundtrip_suffix hL b 0 wu (onlyU X) hwb hdom.2 (typed_onlyU wx wu X hX) k hk1 (by rw [onlyU_length]; omega)]
     unfold zipXU
     simp only []
     have h1 : (lastN (k + Stages.gain a) (onlyX X)).length = k + Stages.gain a := by
@@ -480,9 +495,9 @@ theorem Stage.roundtrip_suffix (hL : EnvLaws env) (s : Stage κ) (wx wu : Nat) (
     rw [← lastN_zipWith _ _ _ _ (by rw [onlyX_length, onlyU_length]), zip_onlyX_onlyU]
   | pipe ss =>
     simp only [Stage.inv, Stage.tr, Stage.gain]
-    exact Stages.roundtrip_suffix hL ss wx wu X (by simpa [Stage.wf] using hwf) hX k hk1 (by simpa [Stage.loss] using hk)
+    exact Stages.roundtrip_suffix hL ss wx wu X (by simpa [Stage.wf] using hwf) (by simpa [Stage.dom] using hdom) hX k hk1 (by simpa [Stage.loss] using hk)
 theorem Stages.roundtrip_suffix (hL : EnvLaws env) (ss : Stages κ) (wx wu : Nat) (X : Ep α)
-    (hwf : Stages.wf env ss (wx, wu))
+    (hwf : Stages.wf env ss (wx, wu)) (hdom : Stages.dom env ss X)
     (hX : Typed wx wu X) (k : Nat) (hk1 : 1 ≤ k) (hk : k + Stages.loss ss ≤ X.length) :
     Stages.inv env ss (wx, wu) (lastN k (Stages.tr env ss X)) = lastN (k + Stages.gain ss) X := by
   cases ss with
@@ -490,21 +505,22 @@ theorem Stages.roundtrip_suffix (hL : EnvLaws env) (ss : Stages κ) (wx wu : Nat
   | cons s rest =>
     simp only [Stages.loss] at hk
     simp only [Stages.wf] at hwf
+    simp only [Stages.dom] at hdom
     simp only [Stages.inv, Stages.tr, Stages.gain]
     have hT := Stage.typed_tr env hL s wx wu X hX
     have hlen := Stage.length_tr env s X
     have hg := Stages.gain_le_loss rest
-    rw [Stages.roundtrip_suffix hL rest _ _ (Stage.tr env s X) hwf.2 hT k hk1 (by rw [hlen]; omega)]
-    rw [Stage.roundtrip_suffix hL s wx wu X hwf.1 hX (k + Stages.gain rest) (by omega) (by omega)]
+    rw [Stages.roundtrip_suffix hL rest _ _ (Stage.tr env s X) hwf.2 hdom.2 hT k hk1 (by rw [hlen]; omega)]
+    rw [Stage.roundtrip_suffix hL s wx wu X hwf.1 hdom.1 hX (k + Stages.gain rest) (by omega) (by omega)]
     congr 1; omega
 end
 
 /-- C01 for the whole episode: k = number of lifted samples -/
 theorem Stage.roundtrip (hL : EnvLaws env) (s : Stage κ) (wx wu : Nat) (X : Ep α)
-    (hwf : Stage.wf env s (wx, wu)) (hX : Typed wx wu X) (hmin : Stage.loss s + 1 ≤ X.length) :
+    (hwf : Stage.wf env s (wx, wu)) (hdom : Stage.dom env s X) (hX : Typed wx wu X) (hmin : Stage.loss s + 1 ≤ X.length) :
     Stage.inv env s (wx, wu) (Stage.tr env s X) = lastN (X.length - Stage.loss s + Stage.gain s) X := by
   have hlen := Stage.length_tr env s X
-  have := Stage.roundtrip_suffix env hL s wx wu X hwf hX (X.length - Stage.loss s) (by omega) (by omega)
+  have := Stage.roundtrip_suffix env hL s wx wu X hwf hdom hX (X.length - Stage.loss s) (by omega) (by omega)
   rwa [lastN_all _ _ (by omega)] at this
 
 
